@@ -97,9 +97,21 @@ func c01Unit(j *Job, u *JobUnit) error {
 					d.Alts[1].Set(fullOut.ProtoReflect())
 				}
 			}
-			for _, ct := range []string{"application/json", "application/x-protobuf"} {
+			for _, mode := range []struct {
+				ct      string
+				perCall bool
+			}{{"application/json", false}, {"application/x-protobuf", false}, {"application/json", true}, {"application/x-protobuf", true}} {
+				ct := mode.ct
 				ctKey := map[string]string{"application/json": "json", "application/x-protobuf": "proto"}[ct]
 				client := svc.NewClient("http://verif.test", hc, ClientOpts{ContentType: ct, DefaultHeaders: requiredHeaderKVs(m)})
+				callOpts, ctOpt := CallOpts{}, ""
+				if mode.perCall {
+					ctOpt = ",ctopt=call"
+					// the content type is chosen per call over a client whose default is the other one
+					other := map[string]string{"application/json": "application/x-protobuf", "application/x-protobuf": "application/json"}[ct]
+					client = svc.NewClient("http://verif.test", hc, ClientOpts{ContentType: other, DefaultHeaders: requiredHeaderKVs(m)})
+					callOpts = CallOpts{ContentType: ct}
+				}
 				eq := func(a, b proto.Message) bool { return equalNorm(dropNegZero(a), dropNegZero(b)) }
 				if ctKey == "proto" {
 					eq = func(a, b proto.Message) bool { return proto.Equal(dropNegZero(a), dropNegZero(b)) }
@@ -112,7 +124,7 @@ func c01Unit(j *Job, u *JobUnit) error {
 					var pan any
 					func() {
 						defer func() { pan = recover() }()
-						got, cerr = client.Call(context.Background(), m.Name, req, CallOpts{})
+						got, cerr = client.Call(context.Background(), m.Name, req, callOpts)
 					}()
 					ex := f.wire.Last()
 					line := ""
@@ -123,33 +135,33 @@ func c01Unit(j *Job, u *JobUnit) error {
 					switch {
 					case pan != nil:
 						t.viol(cell, "client_panic", fmt.Sprint(pan), p.Labels)
-						t.hit(cellBase+",ct="+ctKey, "client_panic", true)
+						t.hit(cellBase+",ct="+ctKey+ctOpt, "client_panic", true)
 					case ex != nil && ex.Panic != "":
 						t.viol(cell, "panic", clipS(ex.Panic), p.Labels)
-						t.hit(cellBase+",ct="+ctKey, "panic", true)
+						t.hit(cellBase+",ct="+ctKey+ctOpt, "panic", true)
 					case len(f.calls) == 0:
 						sym := "no_route_or_rejected"
 						if ex != nil {
 							sym = fmt.Sprintf("not_dispatched(%d)", ex.Status)
 						}
 						t.viol(cell, sym, fmt.Sprintf("%s | err=%v | req=%s", line, cerr, protoText(req)), p.Labels)
-						t.hit(cellBase+",ct="+ctKey, sym, true)
+						t.hit(cellBase+",ct="+ctKey+ctOpt, sym, true)
 					case len(f.calls) > 1:
 						t.viol(cell, "handler_ran_twice", line, p.Labels)
 					case f.calls[0] != want:
 						t.viol(cell, "wrong_rpc", fmt.Sprintf("want %s, handler %s ran | %s", want, f.calls[0], line), p.Labels)
-						t.hit(cellBase+",ct="+ctKey, "wrong_rpc", true)
+						t.hit(cellBase+",ct="+ctKey+ctOpt, "wrong_rpc", true)
 					case !eq(req, f.seen[0]):
 						t.viol(cell, "request_differs", fmt.Sprintf("%s | body=%s | sent=%s | handler saw=%s", line, clip(ex.ReqBody), protoText(req), protoText(f.seen[0])), p.Labels)
-						t.hit(cellBase+",ct="+ctKey, "request_differs", true)
+						t.hit(cellBase+",ct="+ctKey+ctOpt, "request_differs", true)
 					case cerr != nil:
 						t.viol(cell, "client_error", fmt.Sprintf("%v | %s", cerr, line), p.Labels)
-						t.hit(cellBase+",ct="+ctKey, "client_error", true)
+						t.hit(cellBase+",ct="+ctKey+ctOpt, "client_error", true)
 					case got == nil || !eq(resp, got):
 						t.viol(cell, "response_differs", fmt.Sprintf("%s | returned=%s | caller got=%s", line, protoText(resp), protoText(got)), p.Labels)
-						t.hit(cellBase+",ct="+ctKey, "response_differs", true)
+						t.hit(cellBase+",ct="+ctKey+ctOpt, "response_differs", true)
 					default:
-						t.hit(cellBase+",ct="+ctKey, "delivered", nontriv)
+						t.hit(cellBase+",ct="+ctKey+ctOpt, "delivered", nontriv)
 					}
 				}
 				// all request values, fixed populated response
@@ -165,7 +177,7 @@ func c01Unit(j *Job, u *JobUnit) error {
 							}
 						}
 					}
-					call(cellBase+",ct="+ctKey+",dir=request#"+cls, p, p.Msg, fullOut)
+					call(cellBase+",ct="+ctKey+ctOpt+",dir=request#"+cls, p, p.Msg, fullOut)
 					return true
 				})
 				if err != nil {
@@ -177,7 +189,7 @@ func c01Unit(j *Job, u *JobUnit) error {
 					continue
 				}
 				err = Enumerate(m.Out, outDims, maxDevFor(j, outDims), func(p Point) bool {
-					call(cellBase+",ct="+ctKey+",dir=response#"+devClass(p), p, baseReq, p.Msg)
+					call(cellBase+",ct="+ctKey+ctOpt+",dir=response#"+devClass(p), p, baseReq, p.Msg)
 					return true
 				})
 				if err != nil {
